@@ -69,6 +69,27 @@ class NoK(Base):
         super().__init__(0, other)
 
 
+class OptK(Base):
+    """`k` admits None (Optional) and has a default of its own: a link whose source ends as None must set it to None."""
+
+    def __init__(self, k: Optional[int] = 5, other: int = 0):
+        super().__init__(k or 0, other)
+
+
+class SrcN:
+    """Class-typed argument whose parameter `lim` is a link source that admits None; signature default None."""
+
+    def __init__(self, lim: Optional[int] = None, name: int = 0):
+        self.lim, self.name = lim, name
+
+
+class SrcV:
+    """Same, signature default 1 (= the `default` channel value of source leaf 0)."""
+
+    def __init__(self, lim: Optional[int] = 1, name: int = 0):
+        self.lim, self.name = lim, name
+
+
 class Holder:
     """Class group with a class-typed parameter and a list-of-classes parameter (targets below a group)."""
 
@@ -103,6 +124,11 @@ def fspec(x):
     return (init.get("k") or 0) * 100 + (init.get("other") or 0) * 10 + 2
 
 
+def fopt(a):
+    """Optional[int] -> int; total on None (a None-valued source is a value like any other), injective."""
+    return -7 if a is None else a * 10 + 1
+
+
 def fbad(a):
     """Ill-typed result for an int target (the documentation requires a value compatible with the target)."""
     return "v" + str(a)
@@ -122,4 +148,4 @@ def fnot(a):
     return not a
 
 
-FUNCS = {"flist": flist, "fnot": fnot, "f1": f1, "f2": f2, "fgroup": fgroup, "fgroup_dict": fgroup_dict, "fspec": fspec, "fbad": fbad, "fhalf": fhalf}
+FUNCS = {"fopt": fopt, "flist": flist, "fnot": fnot, "f1": f1, "f2": f2, "fgroup": fgroup, "fgroup_dict": fgroup_dict, "fspec": fspec, "fbad": fbad, "fhalf": fhalf}
